@@ -285,18 +285,21 @@ Proof. exact bounded_agreement. Qed.
 Print Assumptions C07_record_equals_replay_bounded.
 
 (* ... and outside that class the two times differ: *)
-Theorem C07_threshold_boundary_refuted :
-  shown (rec_then_plain c_thr MC.PG f_thr) = [(false, 0%N, 0); (false, 2%N, 1); (true, 2%N, 1); (true, 0%N, 0)]
+(* the former boundary divergence (record kept `>`, replay drops `<`) is repaired in /repo: a call that runs exactly
+   the threshold, and a zero-duration call without -t, are kept at both times *)
+Theorem C07_threshold_boundary_agrees :
+  shown (rec_then_plain c_thr MC.PG f_thr)
+  = [(false, 0%N, 0); (false, 1%N, 1); (true, 1%N, 1); (false, 2%N, 1); (true, 2%N, 1); (true, 0%N, 0)]
   /\ shown (plain_then_opt c_thr f_thr)
      = [(false, 0%N, 0); (false, 1%N, 1); (true, 1%N, 1); (false, 2%N, 1); (true, 2%N, 1); (true, 0%N, 0)].
 Proof. exact threshold_boundary. Qed.
-Print Assumptions C07_threshold_boundary_refuted.
+Print Assumptions C07_threshold_boundary_agrees.
 
-Theorem C07_zero_duration_refuted :
-  shown (rec_then_plain plain MC.PG f_zero) = [(false, 0%N, 0); (true, 0%N, 0)]
+Theorem C07_zero_duration_agrees :
+  shown (rec_then_plain plain MC.PG f_zero) = [(false, 0%N, 0); (false, 1%N, 1); (true, 1%N, 1); (true, 0%N, 0)]
   /\ shown (plain_then_opt plain f_zero) = [(false, 0%N, 0); (false, 1%N, 1); (true, 1%N, 1); (true, 0%N, 0)].
 Proof. exact zero_duration. Qed.
-Print Assumptions C07_zero_duration_refuted.
+Print Assumptions C07_zero_duration_agrees.
 
 Theorem C07_filter_below_depth_trigger_refuted :
   shown (rec_then_plain c_fd MC.PG f_fd)
